@@ -1,42 +1,33 @@
 /- C11 invariant: preservation by the producers' steps inside `Set` and by the continuation invocation -/
-import YaclibModel.Proofs.WaitTac
+import YaclibModel.Proofs.WaitAuto
 
 namespace Yaclib.Wait
 variable {w : Workload} {s : State}
 
-set_option maxHeartbeats 4000000 in
+set_option maxHeartbeats 1000000 in
 theorem inv_pLock (hi : Inv w s) (i : Nat) (h : (s.fut i).ppc = .setting) (hm : s.holder = none) :
     Inv w (doPLock s i) := by
   have hal := hi.alive_of_setting h
-  have hg := hi.g_set hal i (Or.inl h)
-  have hset := hi.set_pp hal i (Or.inl h)
   have hc : ∀ a m, cntG (upd s.fut i { s.fut i with ppc := .locked }) a m = cntG s.fut a m := fun a m => cntG_upd_g rfl
-  have hrb : regBound (doPLock s i) = regBound s := regBound_congr rfl rfl
-  have hsb : rstBound (doPLock s i) = rstBound s := rstBound_congr rfl rfl rfl
-  cases hi
-  constructor <;> (try simp only [hrb, hsb]) <;> (try simp only [doPLock, Ninn, Ntaken, Ndecd, Nback, hc]) <;> inv_close
+  constructor <;> (try simp only [doPLock, Ninn, Ntaken, Ndecd, Nback, hc])
+  inv_solve_at hi i
 
-set_option maxHeartbeats 4000000 in
+set_option maxHeartbeats 1000000 in
 theorem inv_pUnlock (hi : Inv w s) (i : Nat) (h : (s.fut i).ppc = .locked) : Inv w (doPUnlock s i) := by
   have hal := hi.alive_of_locked h
-  have hg := hi.g_set hal i (Or.inr h)
   have hc : ∀ a m, cntG (upd s.fut i { s.fut i with ppc := .done }) a m = cntG s.fut a m := fun a m => cntG_upd_g rfl
-  have hrb : regBound (doPUnlock s i) = regBound s := regBound_congr rfl rfl
-  have hsb : rstBound (doPUnlock s i) = rstBound s := rstBound_congr rfl rfl rfl
-  cases hi
-  constructor <;> (try simp only [hrb, hsb]) <;> (try simp only [doPUnlock, Ninn, Ntaken, Ndecd, Nback, hc]) <;> inv_close
+  constructor <;> (try simp only [doPUnlock, Ninn, Ntaken, Ndecd, Nback, hc])
+  inv_solve_at hi i
 
-set_option maxHeartbeats 4000000 in
+set_option maxHeartbeats 1000000 in
 theorem inv_pInvoke (hi : Inv w s) (i : Nat) (h : (s.fut i).ppc = .fire) : Inv w (doPInvoke s i) := by
   have hc : ∀ a m, cntG (upd s.fut i { s.fut i with ppc := .done, ndel := (s.fut i).ndel + 1 }) a m = cntG s.fut a m :=
     fun a m => cntG_upd_g rfl
-  have hrb : regBound (doPInvoke s i) = regBound s := regBound_congr rfl rfl
-  have hsb : rstBound (doPInvoke s i) = rstBound s := rstBound_congr rfl rfl rfl
   have hfi : i < s.fi := by
     by_cases hlt : i < s.fi
     · exact hlt
     · exact absurd h (hi.todo i (by omega)).2.2
-  cases hi
-  constructor <;> (try simp only [hrb, hsb]) <;> (try simp only [doPInvoke, Ninn, Ntaken, Ndecd, Nback, hc]) <;> inv_close
+  constructor <;> (try simp only [doPInvoke, Ninn, Ntaken, Ndecd, Nback, hc])
+  inv_solve_at hi i
 
 end Yaclib.Wait
